@@ -703,40 +703,110 @@ def one_case(ctx, Time, TimeDelta, drv, scale, fmt, fmt2, scalar, dvals, evals, 
             ctx.violate("shape", f"{name}: {len(dvals)} operands gave {sz} results", case)
 
 
+DELTA_VARIANTS = ["nonzero", "zero", "negzero", "zeros-array", "empty-array", "array"]
+TIME_VARIANTS = ["nonzero", "mjd-zero", "mjd-zeros-array", "empty-array", "array"]
+
+
+def _operand(Time, TimeDelta, kind, variant, scale, rng):
+    """an operand of the given kind and value variant, and its encoding for the driver"""
+    if kind == "delta":
+        v = {"nonzero": 1.5, "zero": 0.0, "negzero": -0.0, "zeros-array": np.array([0.0, -0.0, 0.0]), "empty-array": np.array([]),
+             "array": np.array([2.5, -1.25])}[variant]
+        fmt = rng.choice(["days", "jd", "seconds"])
+        o = TimeDelta(v, fmt=fmt, scale=scale)
+    else:
+        v = {"nonzero": 58000.25, "mjd-zero": 0.0, "mjd-zeros-array": np.array([0.0, 0.0]), "empty-array": np.array([]),
+             "array": np.array([58000.25, 58001.5])}[variant]
+        o = Time(v, fmt="mjd", scale=scale)
+    j1, j2 = jparts(o)
+    if np.ndim(o.jd1) == 0:
+        j1, j2 = j1[:1], j2[:1]
+    if np.asarray(o.jd1).size == 0:
+        j1, j2 = [], []
+    return o, f"{kind};{scale};{enc_val(j1, j2, np.ndim(o.jd1) == 0)}"
+
+
+def _outcome(f):
+    try:
+        f()
+        return "value"
+    except TypeError:
+        return "TYPE"
+    except AttributeError:
+        return "ATTR"
+    except ValueError:
+        return "SHAPE"
+    except Exception as ex:
+        return f"ERR:{type(ex).__name__}"
+
+
 def mixed_scales(ctx, Time, TimeDelta):
-    """Mixing scales is refused rather than silently computed (all 20 ordered pairs x 6 operator shapes)"""
+    """Mixing scales is refused rather than silently computed: all 20 ordered scale pairs x 6 operator shapes x value variants on
+    both sides (non-zero, 0.0, -0.0, all-zero array, empty array, array; for epochs also mjd 0) — the whole Python expression,
+    i.e. including whatever the reflected method of the right operand does — against `pyBinop`; then plain numbers as operands
+    (`d + 0`, `0 + d`, `sum([...])`, …), which the model mirrors as the code has them (AttributeError / TypeError)."""
     drv = ctx.driver
+    rng = ctx.rng
+    SHAPES6 = [("t+d", "add", "time", "delta"), ("t-d", "sub", "time", "delta"), ("t-u", "sub", "time", "time"),
+               ("d+d", "add", "delta", "delta"), ("d-d", "sub", "delta", "delta"), ("d+t", "add", "delta", "time")]
+    lines, meta = [], []
     for sa in SCALES:
         for sb in SCALES:
             if sa == sb:
                 continue
-            t = Time(58000.25, fmt="mjd", scale=sa)
-            d = TimeDelta(1.5, fmt="days", scale=sb)
-            u = Time(58001.25, fmt="mjd", scale=sb)
-            da = TimeDelta(2.5, fmt="days", scale=sa)
-            for name, f, line in [
-                ("t+d", lambda: t + d, f"c03 binop add time {sa} 1 0 delta {sb} 1 0"),
-                ("t-d", lambda: t - d, f"c03 binop sub time {sa} 1 0 delta {sb} 1 0"),
-                ("t-u", lambda: t - u, f"c03 binop sub time {sa} 1 0 time {sb} 1 0"),
-                ("d+d", lambda: da + d, f"c03 binop add delta {sa} 1 0 delta {sb} 1 0"),
-                ("d-d", lambda: da - d, f"c03 binop sub delta {sa} 1 0 delta {sb} 1 0"),
-                ("d+t", lambda: d + t, f"c03 binop add delta {sb} 1 0 time {sa} 1 0"),
-            ]:
-                case = {"mixed": name, "sa": sa, "sb": sb}
-                ctx.case(case)
-                ctx.count("mixed-scale")
-                try:
-                    r = f()
-                    impl = "value"
-                except TypeError:
-                    impl = "NI"
-                except Exception as ex:
-                    impl = f"ERR:{type(ex).__name__}"
-                m = drv.ask1(line)
-                if (m == "NI") != (impl == "NI"):
-                    ctx.disagree("scale guard", case, m, impl)
-                if impl != "NI":
-                    ctx.violate(f"mixed-scale:{name}", f"{name} across scales {sa}/{sb} was not refused ({impl})", case)
+            for name, op, ka, kb in SHAPES6:
+                lv = DELTA_VARIANTS if ka == "delta" else TIME_VARIANTS
+                rv = DELTA_VARIANTS if kb == "delta" else TIME_VARIANTS
+                combos = [(x, y) for x in lv for y in rv] if ctx.thorough else [(x, rng.choice(rv)) for x in lv] + [(rng.choice(lv), y) for y in rv]
+                for va, vb in combos:
+                    case = {"mixed": name, "sa": sa, "sb": sb, "left": va, "right": vb}
+                    try:
+                        a, ea = _operand(Time, TimeDelta, ka, va, sa, rng)
+                        b, eb = _operand(Time, TimeDelta, kb, vb, sb, rng)
+                    except Exception as ex:
+                        ctx.count(f"mixed-scale:operand-not-constructible:{type(ex).__name__}")
+                        continue
+                    ctx.case(case)
+                    ctx.count("mixed-scale")
+                    ctx.count(f"mixed-left:{va}")
+                    impl = _outcome((lambda: a + b) if op == "add" else (lambda: a - b))
+                    lines.append(f"c03 py {op} {ea} {eb}")
+                    meta.append((case, name, impl))
+    for (case, name, impl), m in zip(meta, drv.ask(lines)):
+        if m != impl:
+            ctx.disagree("scale guard through Python's operator dispatch", case, m, impl)
+        if impl != "TYPE":
+            ctx.violate(f"mixed-scale:{name}", f"{name} across scales {case['sa']}/{case['sb']} (left {case['left']}, right {case['right']}) "
+                        f"was not refused ({impl})", case)
+    # plain numbers and sum(): mirrored, not required by the property (a number has no scale)
+    lines, meta = [], []
+    for scale in SCALES:
+        for kind, variants in (("delta", ["nonzero", "zero", "array", "zeros-array"]), ("time", ["nonzero", "array"])):
+            for variant in variants:
+                o, eo = _operand(Time, TimeDelta, kind, variant, scale, rng)
+                for num in (0, 0.0, -0.0, 1, 2.5):
+                    pl = "plain0" if num == 0 else "plain1"
+                    for op, f, g in (("add", lambda: o + num, lambda: num + o), ("sub", lambda: o - num, lambda: num - o)):
+                        for side, fn, line in (("right", f, f"c03 py {op} {eo} {pl}"), ("left", g, f"c03 py {op} {pl} {eo}")):
+                            case = {"plain_number": repr(num), "side": side, "op": op, "kind": kind, "variant": variant, "scale": scale}
+                            ctx.case(case)
+                            ctx.count(f"plain-number:{side}")
+                            lines.append(line)
+                            meta.append((case, _outcome(fn)))
+                if kind == "delta":
+                    o2, eo2 = _operand(Time, TimeDelta, kind, "nonzero", scale, rng)
+                    for lst, enc in (([o], [eo]), ([o, o2], [eo, eo2]), ([o2, o, o2], [eo2, eo, eo2])):
+                        case = {"sum": len(lst), "variant": variant, "scale": scale}
+                        ctx.case(case)
+                        ctx.count("plain-number:sum")
+                        lines.append("c03 pysum " + " ".join(enc))
+                        meta.append((case, _outcome(lambda: sum(lst))))
+    for (case, impl), m in zip(meta, drv.ask(lines)):
+        if m != impl:
+            ctx.disagree("plain number as an operand / sum() (Python dispatch)", case, m, impl)
+    # NumPy scalars / arrays on the left are handled by NumPy itself (ndarray arithmetic on the value array): recorded, not judged
+    d = TimeDelta(1.5, fmt="days", scale="utc")
+    ctx.count("numpy-left-operand:" + _outcome(lambda: np.float64(0) + d))
 
 
 def replay(payload):
